@@ -48,7 +48,7 @@ static int m_append_verdict(const model *m, lzma_vli unp, lzma_vli unc) {
 	u128 list = ms_list(s) + vsz(unp) + vsz(unc);
 	if (base + 24 + s->padding + ceil4(ms_blocks(s) + unp) + idx_size(s->nrec + 1, list) > VMAX) return 1;
 	if (idx_size(m_records(m) + 1, m_list(m) + vsz(unp) + vsz(unc)) > BACKWARD_MAX) return 1;
-	if (m_unc(m) + unc > VMAX) return 2;	// only the sum over several Streams overflows: not a per-Stream format limit
+	if (m_unc(m) + unc > VMAX) return 1;	// the sum over all Streams must stay a valid VLI too (lzma_index_uncompressed_size(), lzma_index_cat() rely on it)
 	return 0;
 }
 static void m_append(model *m, lzma_vli unp, lzma_vli unc) { mstream *s = &m->s[m->ns - 1]; s->unp[s->nrec] = unp; s->unc[s->nrec] = unc; s->nrec++; }
